@@ -1552,7 +1552,33 @@ fn gen_sweeps(tier: &str, out: &mut Vec<String>) {
     }
 }
 
+/// the hand-written precision lists of `impl_chain_prec!` must be the unions of what
+/// `for_each_combo!` / `combos()` list; fail loudly if the shared table changed
+fn check_tables() {
+    for (w, s, bps) in combos() {
+        let mine: &[u32] = match (w, s) {
+            (8, 16) => C8x16::precisions(),
+            (8, 32) => C8x32::precisions(),
+            (8, 64) => C8x64::precisions(),
+            (16, 32) => C16x32::precisions(),
+            (16, 64) => C16x64::precisions(),
+            (32, 64) => C32x64::precisions(),
+            (32, 128) => C32x128::precisions(),
+            (64, 128) => C64x128::precisions(),
+            _ => panic!("chain.rs: combination ({}, {}) of combos() has no impl_chain_prec! line", w, s),
+        };
+        assert_eq!(
+            mine,
+            &union_precs(&bps)[..],
+            "chain.rs: impl_chain_prec! list for ({}, {}) differs from combos()",
+            w,
+            s
+        );
+    }
+}
+
 pub fn gen(rng: &mut Rng, tier: &str, out: &mut Vec<String>) {
+    check_tables();
     let thorough = tier == "thorough";
     let (n_round, n_hist, n_bound) = if thorough { (3000, 3000, 3000) } else { (150, 150, 150) };
     for (w, s, bps) in combos() {
@@ -2000,7 +2026,174 @@ fn oracle_combo<C: ChainPrec>(rng: &mut Rng, bps: &[(u32, Vec<u32>)], iters: usi
     }
 }
 
+// ---- C10 / C13 with the crate's own models, through the public API only (no hook) ----
+
+#[derive(Clone, Copy, PartialEq, Debug)]
+enum ZSym {
+    U(usize),
+    I(i32),
+}
+
+#[derive(Clone)]
+enum ZModel {
+    /// categorical probabilities (f32 weights of 2..=6 symbols)
+    Cat(Vec<f32>),
+    /// quantised Gaussian on -100..=100
+    Gauss(f64, f64),
+}
+
+macro_rules! zoo_oracle {
+    (@deccat lookup, $coder:ident, $cat:ident) => {{
+        let lk = $cat.to_lookup_decoder_model();
+        $coder.decode_symbol(&lk).map(ZSym::U).map_err(|_| ())
+    }};
+    (@deccat plain, $coder:ident, $cat:ident) => {
+        $coder.decode_symbol(&$cat).map(ZSym::U).map_err(|_| ())
+    };
+    ($fname:ident, $Coder:ty, $W:ty, $Cat:ty, $Quant:ty, $how:ident) => {
+        fn $fname(rng: &mut Rng, iters: usize, rep: &mut Report) {
+            use probability::distribution::Gaussian;
+            let wbits = <$W>::BITS;
+            for _ in 0..iters {
+                let n = (rng.next() % 20) as usize;
+                let style = rng.next() % 5;
+                let data: Vec<$W> = (0..n)
+                    .map(|_| match style {
+                        0 => 0,
+                        1 => <$W>::MAX,
+                        _ => rng.below(pow2(wbits)) as $W,
+                    })
+                    .collect();
+                let k = (rng.next() % 40) as usize;
+                let models: Vec<ZModel> = (0..k)
+                    .map(|_| {
+                        if rng.chance(1, 2) {
+                            let m = 2 + (rng.next() % 5) as usize;
+                            ZModel::Cat((0..m).map(|_| if rng.chance(1, 6) { 1e-9 } else { 0.01 + (rng.next() % 1000) as f32 }).collect())
+                        } else {
+                            ZModel::Gauss((rng.next() % 300) as f64 - 150.0, 0.001 + (rng.next() % 4000) as f64 / 100.0)
+                        }
+                    })
+                    .collect();
+                let desc = || format!("zoo {} data {:?} models {}", stringify!($Coder), data, models.len());
+                let quantizer = <$Quant>::new(-100..=100);
+                let mut coder = match <$Coder>::from_binary(data.clone()) {
+                    Ok(c) => c,
+                    Err(_) => {
+                        rep.count("C10.zoo.ctor_err");
+                        continue;
+                    }
+                };
+                let mut syms: Vec<ZSym> = Vec::new();
+                let mut failed = false;
+                for m in &models {
+                    rep.eval("C10");
+                    let r = guarded(|| -> Result<ZSym, ()> {
+                        match m {
+                            ZModel::Cat(probs) => {
+                                let cat = <$Cat>::from_floating_point_probabilities_fast(probs, None).unwrap();
+                                zoo_oracle!(@deccat $how, coder, cat)
+                            }
+                            ZModel::Gauss(mu, sigma) => coder
+                                .decode_symbol(quantizer.quantize(Gaussian::new(*mu, *sigma)))
+                                .map(ZSym::I)
+                                .map_err(|_| ()),
+                        }
+                    });
+                    match r {
+                        Err(class) => {
+                            rep.fail("C10", format!("{} => {}", desc(), class));
+                            failed = true;
+                            break;
+                        }
+                        Ok(Err(())) => {
+                            rep.count("C10.zoo.out_of_data");
+                            break;
+                        }
+                        Ok(Ok(sym)) => {
+                            let ok = match (m, sym) {
+                                (ZModel::Cat(p), ZSym::U(i)) => i < p.len(),
+                                (ZModel::Gauss(..), ZSym::I(i)) => (-100..=100).contains(&i),
+                                _ => false,
+                            };
+                            if !ok {
+                                rep.fail("C10", format!("{} => symbol {:?} outside the support", desc(), sym));
+                                failed = true;
+                                break;
+                            }
+                            syms.push(sym);
+                        }
+                    }
+                }
+                if failed {
+                    continue;
+                }
+                // C13 through the public API: export, re-import the suffix, re-encode, finish
+                let (prefix, suffix) = coder.into_remainders().unwrap();
+                let mut enc = match <$Coder>::from_remainders(suffix) {
+                    Ok(c) => c,
+                    Err(_) => {
+                        rep.fail("C13", format!("{} => from_remainders failed", desc()));
+                        continue;
+                    }
+                };
+                let mut ok = true;
+                for (m, sym) in models.iter().zip(&syms).rev() {
+                    let r = guarded(|| match (m, sym) {
+                        (ZModel::Cat(probs), ZSym::U(i)) => {
+                            let cat = <$Cat>::from_floating_point_probabilities_fast(probs, None).unwrap();
+                            enc.encode_symbol(*i, &cat).is_ok()
+                        }
+                        (ZModel::Gauss(mu, sigma), ZSym::I(i)) => {
+                            enc.encode_symbol(*i, quantizer.quantize(Gaussian::new(*mu, *sigma))).is_ok()
+                        }
+                        _ => false,
+                    });
+                    if r != Ok(true) {
+                        rep.fail("C13", format!("{} => re-encoding {:?} returned {:?}", desc(), sym, r));
+                        ok = false;
+                        break;
+                    }
+                }
+                if !ok {
+                    continue;
+                }
+                rep.eval("C13");
+                rep.count("C13.zoo");
+                match enc.into_binary() {
+                    Ok((p2, s2)) => {
+                        let mut rec = prefix;
+                        rec.extend(p2);
+                        rec.extend(s2);
+                        if rec != data {
+                            rep.fail("C13", format!("{} symbols {:?} => recovered {:?}", desc(), syms, rec));
+                        }
+                    }
+                    Err(_) => rep.fail("C13", format!("{} => into_binary failed", desc())),
+                }
+            }
+        }
+    };
+}
+zoo_oracle!(
+    oracle_zoo_default,
+    constriction::stream::chain::DefaultChainCoder,
+    u32,
+    constriction::stream::model::DefaultContiguousCategoricalEntropyModel,
+    constriction::stream::model::DefaultLeakyQuantizer<f64, i32>,
+    plain
+);
+zoo_oracle!(
+    oracle_zoo_small,
+    constriction::stream::chain::SmallChainCoder,
+    u16,
+    constriction::stream::model::SmallContiguousCategoricalEntropyModel,
+    constriction::stream::model::SmallLeakyQuantizer<f64, i32>,
+    lookup
+);
+
 pub fn oracle(rng: &mut Rng, tier: &str, rep: &mut Report) {
+    check_tables();
     let iters = if tier == "thorough" { 60000 } else { 4000 };
     for (w, s, bps) in combos() {
         match (w, s) {
@@ -2015,4 +2208,6 @@ pub fn oracle(rng: &mut Rng, tier: &str, rep: &mut Report) {
             _ => {}
         }
     }
+    oracle_zoo_default(rng, iters / 2, rep);
+    oracle_zoo_small(rng, iters / 2, rep);
 }
